@@ -16,6 +16,8 @@ fn cfg() -> Cfg {
         contract: None,
         adopt_alive: false,
         judge: None,
+        log_level: 0,
+        sweep_every: 0,
     }
 }
 
